@@ -59,7 +59,12 @@ func timeIndex(label string) int {
 }
 
 // All DAG file names of the property's alphabet (index = stable id used in request ids).
-var allDags = []string{"a.yaml", "a b.yaml", "a.b.yaml", "a_c.yaml", "ab.yaml", "a[1].yaml", "a*.yaml", "a?.yaml"}
+var allDags = []string{"a.yaml", "a b.yaml", "a.b.yaml", "a_c.yaml", "ab.yaml", "a[1].yaml", "a*.yaml", "a?.yaml",
+	// names made of the fragments the store itself puts into history file names: the extension .dat, the
+	// compaction suffix _c next to it, the definition extension in the middle, a complete timestamped
+	// history-file stem (searches extname/*)
+	"x.dat.yaml", "sales.data.yaml", "a.dat_c.yaml", "a_c.dat.yaml", ".dat.yaml", "a.yaml.b.yaml",
+	"a.20240101.10:00:00.000.abcdef12.yaml"}
 
 func dagIndex(d string) int {
 	for i, n := range allDags {
@@ -76,6 +81,9 @@ func dagIndex(d string) int {
 // ids issued for different DAGs differ there, so that two different runs never
 // map to the same file name even after renames.
 func reqID(d string, t int) string {
+	if i := dagIndex(d); i >= 8 {
+		return fmt.Sprintf("5e1fd%03d-0000-4000-8000-%012d", i, t)
+	}
 	return fmt.Sprintf("5e1fc06%d-0000-4000-8000-%012d", dagIndex(d), t)
 }
 
